@@ -57,6 +57,11 @@ func (k Keeper) MintAndAllocate(ctx sdk.Context) error {
 
 		ctx.Logger().Error(errStr)
 
+		// Nothing is minted, but the block still is the reference for the next one: the elapsed time is measured
+		// between consecutive blocks. Leaving the old timestamp in place would make the first block after the
+		// condition ends (e.g. a negative reward coefficient replaced by a positive one) mint for the whole gap.
+		k.SetPrevBlockTS(ctx, currentBlockTS.RoundInt())
+
 		return nil
 	}
 
